@@ -1,4 +1,4 @@
-\* the whole decision table (1536 rows)
+\* the whole decision table (3072 rows)
 SPECIFICATION Spec
 INVARIANTS TableLaws EmitReplay
 CHECK_DEADLOCK FALSE
